@@ -210,9 +210,14 @@ def gen_method(rng, name, shape, lib, gs, recv_kinds, own_names=False, allow_asy
     vis = rng.choice(["pub", "pub", "pub", "pub(crate)", "pub(super)", "pub(in crate)", ""])
     plist = ["%s: %s" % (p, t) for p, t, _, _ in params]
     gtxt, wtxt = "", ""
+    localgen2 = localgen and rng.random() < 0.4
     if localgen:
         gtxt = "<G: Into<u32> + Send + 'static>"
         plist.append("gq: G")
+        if localgen2:
+            # several method-level generic parameters, declared in non-alphabetical order, with different bounds
+            gtxt = "<G: Into<u32> + Send + 'static, B: Into<u8> + Send + 'static>"
+            plist.append("gr: B")
         if rng.random() < 0.3:
             wtxt = " where G: Clone"
     rtxt = {"&self": "&self", "&mut self": "&mut self", "self": "self", "mut self": "mut self", "static": ""}[recv]
@@ -222,6 +227,7 @@ def gen_method(rng, name, shape, lib, gs, recv_kinds, own_names=False, allow_asy
     text = "%s%s%s { todo!() }" % (doc, vis + " " if vis else "", sig)
     kind = {"&self": "ref", "&mut self": "ref", "self": "slf", "mut self": "slf", "static": "stat"}[recv]
     return {"name": name, "shape": shape, "recv": recv, "kind": kind, "params": params, "ret": ret, "async": is_async, "localgen": localgen,
+            "localgen2": localgen2,
             "vis": vis, "public": vis != "", "sig": sig, "text": text, "self_use": self_use}
 
 
@@ -367,7 +373,7 @@ def field_collision(p):
     """two parameters of one selected method whose flattened field names coincide"""
     for sel in p["selected_sets"]:
         for m in _methods(p, sel):
-            fl = [flat_name(b) for _, _, _, b in m["params"]] + (["gq"] if m["localgen"] else [])
+            fl = [flat_name(b) for _, _, _, b in m["params"]] + (["gq"] if m["localgen"] else []) + (["gr"] if m.get("localgen2") else [])
             if len(set(fl)) != len(fl):
                 return m["name"]
     return None
